@@ -40,7 +40,10 @@ def one(sid):
         env = dict(os.environ, MSDM_REPO=wt, VERIF_REPLAY_DIR=f"/tmp/rp_rs_{sid}", VERIF_SEED=vseed, VERIF_JOBS="4")
         rr = subprocess.run([os.path.join(ROOT, "check"), prop, "--no-evidence"], capture_output=True, text=True, env=env, timeout=3600)
         names = sorted({l.split()[1].rstrip(":") for l in rr.stdout.splitlines() if l.startswith("violation ")})
-        return sid, {"property": prop, "outcome": {0: "MISSED", 1: "caught", 2: "harness-error"}.get(rr.returncode, "?"),
+        oc = {0: "MISSED", 1: "caught", 2: "harness-error"}.get(rr.returncode, "?")
+        if oc == "MISSED" and meta.get("not_caught_reason"):
+            oc = "MISSED (explained in meta.json / DESIGN.md section 7)"
+        return sid, {"property": prop, "outcome": oc,
                      "assertions": names[:6], "seconds": round(time.time() - t0, 1)}
     finally:
         sh(f"git -C /repo worktree remove --force {wt}")
